@@ -1796,7 +1796,13 @@ class Exec:
             return R(a.end == a.start)
         if re.match(r'NonNull::<.*>::dangling', c):
             return R(BlockPtr(Block('dangling', Arr('Zst', s.N))))
-        if re.match(r'NonNull::<.*>::as_ptr', c) or re.search(r'::cast::<', c):
+        mcast = re.search(r'::cast::<(.*)>$', c)
+        if mcast and isinstance(args[0], (ElemPtr, ArrRef)) and 'GenericArray<' in mcast.group(1):      # same as `ptr as *const GenericArray<..>`
+            p0 = args[0] if isinstance(args[0], ElemPtr) else ElemPtr(args[0].arr, bv(0))
+            return R(with_prov(ElemPtr(p0.arr, p0.idx, cast='*const ' + mcast.group(1)), args[0].prov))
+        if mcast and isinstance(args[0], ElemPtr) and args[0].cast and re.fullmatch(r'(T|MaybeUninit<T>)', mcast.group(1)):
+            return R(with_prov(ElemPtr(args[0].arr, args[0].idx), args[0].prov))
+        if re.match(r'NonNull::<.*>::as_ptr', c) or mcast:
             return R(args[0])
         # ---- heap
         if re.match(r'Box::<GenericArray<T, N>>::new_uninit', c):
